@@ -462,6 +462,10 @@ def run_check(pid: str, tier: str, seed: int, nshards: Optional[int] = None) -> 
         "wall_s": round(wall, 2),
         "violations": len(violations),
     }
+    if ev["level"] == "translation_validation":
+        # level-specific keys: programs translated and compared; disagreements (failure records, known or not) examined
+        ev["coverage"]["programs"] = max(1, sum(v for k, v in col.per_target.items() if k in getattr(mod, "PROGRAM_TARGETS", ()) or not getattr(mod, "PROGRAM_TARGETS", ())))
+        ev["coverage"]["disagreements_checked"] = sum(r["count"] for r in col.failures.values())
     ev["coverage"].update(ctx.extra)
     evdir = os.environ.get("VERIF_EVIDENCE_DIR") or os.path.join(env.VERIF, "evidence")
     os.makedirs(evdir, exist_ok=True)
